@@ -92,6 +92,7 @@ def oracle(c, r):
     if (c["G"]["n"] != c["G2"]["n"]) != (o["add2"] == "err"): why.append("mismatched vertex sets: + %s" % o["add2"])
     v = c["v"]; n = c["G"]["n"]
     if o["chip"] != ("err" if v >= n else [1 if i == v else 0 for i in range(n)]): why.append("chip wrong")
+    if v < n and (o.get("chip_again") != [1 if i == v else 0 for i in range(n)] or o.get("zero_again") != [0] * n): why.append("chip / zero asked again after their first result was modified: %s / %s" % (o.get("chip_again"), o.get("zero_again")))
     return {"violates": bool(why), "why": why}
 def nontrivial(cases): return len({str((c["G"]["edges"], c["D"], c["E"], c["k"], c["kind"])) for c in cases if any(c["D"]) and any(c["E"])})
 def distribution(cases):
